@@ -117,6 +117,27 @@ def run(ctx):
                     a, _ = ev.call_function('bip32.PubKeyNode.extended_public_key', [qchild], {'version': ver})
                     b, _ = ev.call_function('bip32.PubKeyNode.extended_public_key', [pchild], {'version': ver}, facts=pk_facts)
                     same_term(ob, a, b, 'serialised extended public keys agree', fi.where)
+                    # ... and with the version left to the node (the default every caller outside BaseWallet gets)
+                    a, _ = ev.call_function('bip32.PubKeyNode.extended_public_key', [qchild])
+                    b, _ = ev.call_function('bip32.PubKeyNode.extended_public_key', [pchild], facts=pk_facts)
+                    same_term(ob, a, b, 'serialised extended public keys agree (version chosen by the node)', fi.where)
+                # the same with parents that were parsed from an extended key string (they remember the version they were
+                # written with): the two routes must still print the same extended public keys for the children
+                if 'parsed_version' in pf:
+                    pvs = S('parsed_version', type='int')
+                    pn2 = T.obj(pn[1], dict(pf, parsed_version=pvs))
+                    qn2 = T.obj(qn[1], dict(T.obj_fields(qn), parsed_version=pvs))
+                    ev2 = Evaluator(p, be)
+                    pv2, pfx2 = ev2.call_function('bip32.PrvKeyNode.ckd', [pn2, i], facts=facts)
+                    qv2, _ = ev2.call_function('bip32.PubKeyNode.ckd', [qn2, i], facts=facts)
+                    pl2, ql2 = normal_leaves(pv2), normal_leaves(qv2)
+                    if len(pl2) == 1 and ql2:
+                        pk_facts2 = Facts(known_at(pfx2, pl2[0][0]))
+                        for cs, qchild in ql2:
+                            a, _ = ev2.call_function('bip32.PubKeyNode.extended_public_key', [qchild])
+                            b, _ = ev2.call_function('bip32.PubKeyNode.extended_public_key', [pl2[0][1]], facts=pk_facts2)
+                            same_term(ob, a, b, 'children of a parsed parent: serialised extended public keys agree (version chosen by '
+                                      'the node) [key%s]' % layout, fi.where)
 
     # hardened children need the private key: a PrvKeyNode object that holds *public* data in its key field (what
     # PrvKeyNode.parse makes of an extended public key payload: 33 bytes 02/03 || x) must have no private key - else
